@@ -14,6 +14,7 @@ RULE = ("breadth-first exploration of command histories over a nested project (/
         "run (project holding other versions). states = distinct canonical project states (index rows + Merkle digest of cond-out); "
         "transitions = commands executed; oracle = reference selection, rows/commit/dirty equality, tar member list, byte-identical trees "
         "(nested dirs, empty files, binary bytes, symlinks), source project unchanged by archive"
+        " Plus single-task projects for every shape of task name the grammar allows (leading '-', only '-'/'_', digits), at the root and in a package."
         ' Plus all 63 non-empty index states over 3 tasks x 2 timestamps (timestamps shared between tasks, as after restores from other checkouts), and archiving from a state that holds the temporary index left by a killed archive.')
 ASSUMPTIONS = [
     "the external tar is trusted (real tar is used)",
@@ -105,7 +106,52 @@ def items(tier):
             if tier == "thorough" and d == 3 and (h[0] + h[1] + h[2]) % 3:
                 continue
             out.append({"history": list(h)})
+    # every shape of task name the grammar allows (letters, digits, '-', '_' in any position), at the root and in a package
+    names = ["x", "_", "0", "a-b", "-x", "-", "--x", "-C", "--remove-files", "x-", "_-_"]
+    out += [{"names": names[i:i + 3]} for i in range(0, len(names), 3)]
     return out + synthetic_items(tier)
+
+
+def run_names(item, res, viol):
+    import json
+    T = 1_700_000_000
+    for nm in item["names"]:
+        for pkg in ("", "p"):
+            cond = 'run_experiment(name=%s, run="./r.sh")\n' % json.dumps(nm)
+            files = {"p/COND": cond, "COND": ""} if pkg else {"COND": cond}
+            ident = "//%s:%s" % (pkg, nm)
+            root = driver.fresh_project(files, name="c11n")
+            art = {"names": [nm], "pkg": pkg}
+            r = hist.run(root, ["run", ident], clock=driver.Clock(T), behaviours={ident: dict(RICH)})
+            rows0 = hist.rows(root) or []
+            if r.exit != 0 or len(rows0) != 1:
+                viol("names:run-failed", "cond run %s exits %r with rows %s: %s" % (ident, r.exit, rows0, r.err_text[:200]), art)
+                continue
+            tree0 = hist.data_tree(root)
+            snap = hist.snapshot(root, root + "-snap")
+            for extra in ([], [ident], ["--latest"]):
+                hist.restore_snapshot(snap, root)
+                arch = os.path.join(root, "A.tar.gz")
+                res["evals"] += 1
+                res["transitions"] += 3
+                res["sigs"].add(explore.sig(["names", nm, pkg, extra]))
+                ra = hist.run(root, ["archive"] + extra + ["-o", arch], clock=driver.Clock(T + 1))
+                if ra.exit != 0 or ra.exc is not None:
+                    viol("names:archive-failed", "cond archive %s of the project whose only task is %s exits %r %r: %s"
+                         % (" ".join(extra), ident, ra.exit, ra.exc, ra.err_text[:300]), art)
+                    continue
+                if hist.rows(root) != rows0 or hist.data_tree(root) != tree0:
+                    viol("names:source-changed", "cond archive changed the source project of %s" % ident, art)
+                hist.run(root, ["clean", "--force"])
+                rr = hist.run(root, ["restore", arch], clock=driver.Clock(T + 2))
+                if rr.exit != 0 or rr.exc is not None:
+                    viol("names:restore-failed", "cond restore of the archive of %s exits %r %r: %s" % (ident, rr.exit, rr.exc, rr.err_text[:300]), art)
+                    continue
+                d = vdir(rows0[0])
+                t1 = hist.data_tree(root)
+                if sorted(hist.rows(root) or []) != sorted(rows0) or hist.subtree(t1, d) != hist.subtree(tree0, d):
+                    viol("names:roundtrip-differs", "archive + restore of %s does not reproduce its version" % ident, art)
+    res["sample"] = {"names": item["names"], "packages": ["", "p"]}
 
 
 def apply_runs(root, history, t0=1_700_000_000):
@@ -128,6 +174,11 @@ def run_item(item, tier):
     def viol(key, what, art):
         found.setdefault(key, (what, art))
 
+    if "names" in item:
+        run_names(item, res, viol)
+        for key, (what, art) in found.items():
+            res["violations"].append({"key": key, "what": what, "artefact": art})
+        return res
     if "synthetic" in item:
         rows = [(tid, ts, ("a" * 40 if ts == 100 else None), 1 if ts == 100 else 0) for tid, ts in item["synthetic"]]
         pre = {}
@@ -236,6 +287,9 @@ def run_item(item, tier):
 
 
 def replay(artefact):
+    if "names" in artefact:
+        r = run_item({"names": artefact["names"]}, "quick")
+        return [(v["key"], v["what"]) for v in r["violations"]]
     if artefact["history"][:1] == ["synthetic"]:
         r = run_item({"synthetic": artefact["history"][1:]}, "quick")
         return [(v["key"], v["what"]) for v in r["violations"]]
